@@ -320,8 +320,6 @@ class Report:
 
     def finish(self):
         os.makedirs(EVIDENCE, exist_ok=True)
-        for cls, hit in sorted(self.known_hits.items()):
-            print("KNOWN-FINDING: property=%s %s (class %s, %d cases this run)" % (self.pid, hit["what"], cls, hit["n"]))
         paths = []
         seen_cls = {}
         for cls, detail in self.violations:
@@ -339,6 +337,8 @@ class Report:
                 paths.append((cls, path, len(details)))
         for cls, path, n in paths[: self.max_report]:
             print("VIOLATION property=%s replay=%s class=%s count=%d" % (self.pid, path, cls, n))
+        for cls, hit in sorted(self.known_hits.items()):
+            print("KNOWN-FINDING: property=%s %s (class %s, %d cases this run)" % (self.pid, hit["what"], cls, hit["n"]))
         cov = dict(self.cov)
         cov["violation_classes"] = {c: len(d) for c, d in seen_cls.items()}
         cov["known_finding_classes"] = {c: h["n"] for c, h in self.known_hits.items()}
